@@ -426,7 +426,7 @@ def check_case(case, rec=None):
     return None
 
 
-N = {"quick": 1500, "thorough": 25000}
+N = {"quick": 1500, "thorough": 15000}
 
 
 def shard_plan(tier):
